@@ -185,6 +185,8 @@ typedef struct sim_knobs {
 	int pipe_size;       /* F_SETPIPE_SZ for pipe2 seams, 0 = leave */
 	int ncpu;            /* sysconf(_SC_NPROCESSORS_CONF) */
 	int dtablesize;      /* getdtablesize() */
+	int tolerate_bad_close; /* close() of a descriptor unknown to the ledger is answered EBADF and counted, not a violation
+	                         (set while control calls race from another thread: the statement promises nothing there) */
 } sim_knobs_t;
 extern sim_knobs_t sim_knobs;
 
